@@ -197,6 +197,44 @@ func runC10(c *Ctx) error {
 		}
 	}
 
+	// three routers whose addresses nest: A geo-marked with a country prefix narrower than its region,
+	// B in A's country, C in A's region outside A's country at a higher address than B.  A's table
+	// then holds routes with different routing prefixes side by side.
+	var nested []*m.Address
+	for tries := 0; tries < 200 && nested == nil; tries++ {
+		A, err := newGeoIdentity()
+		if err != nil {
+			break
+		}
+		mk, err := m.LookupCountryMarker(A.IP)
+		if err != nil || mk.Prefix.Bits() < 17 || mk.Prefix.Bits() > 18 {
+			continue
+		}
+		region, err := A.IP.Prefix(m.RegionPrefixBits)
+		if err != nil {
+			continue
+		}
+		ctx, cancel := context.WithTimeout(context.Background(), 40*time.Second)
+		B, _, errB := m.GenerateRoutableAddress(ctx, []netip.Prefix{mk.Prefix}, nil, 0)
+		var C *m.Address
+		for k := 0; k < 6 && errB == nil && B != nil; k++ {
+			x, _, err := m.GenerateRoutableAddress(ctx, []netip.Prefix{region}, []netip.Prefix{mk.Prefix}, 0)
+			if err != nil || x == nil {
+				break
+			}
+			if x.IP.Compare(B.IP) > 0 {
+				C = x
+				break
+			}
+		}
+		cancel()
+		if B != nil && C != nil {
+			nested = []*m.Address{A, B, C}
+			c.Count("identity:nested-routing-prefixes")
+		}
+		break
+	}
+
 	// ---------- (a) converged meshes ----------
 	type spec struct {
 		kind string
@@ -219,6 +257,23 @@ func runC10(c *Ctx) error {
 				specialPos = append(specialPos, pos)
 			}
 		}
+		if si == 2 && nested != nil && sp.n >= 6 {
+			// the nested triple takes the places the special-range routers left free
+			free := []int{}
+			for pos := 0; pos < sp.n; pos++ {
+				taken := false
+				for _, q := range specialPos {
+					taken = taken || q == pos
+				}
+				if !taken {
+					free = append(free, pos)
+				}
+			}
+			for i, a := range nested {
+				mids[free[i]] = a
+			}
+			specialPos = append(specialPos, free[1], free[2]) // B and C are destinations of the first requests too
+		}
 		labelMode := c.Rng.IntN(3)
 		ms, err := newMesh(c, sp.kind, sp.n, labelMode, nil, mids)
 		if err != nil {
@@ -230,9 +285,13 @@ func runC10(c *Ctx) error {
 		if _, bad := ms.checkReach(label); bad > 0 {
 			continue // C09's business; no converged mesh to test on
 		}
-		// somebody opens the dashboard on every router: the routing table is printed
+		// somebody opens the dashboard on every router: the routing table is printed; the mesh is as
+		// converged afterwards as it was before
 		for _, nd := range ms.nodes {
 			_ = nd.ro.Table().Format()
+		}
+		if _, bad := ms.checkReach(label + "/after-table-dump"); bad > 0 {
+			continue
 		}
 		pairs := c.Pick(6, 30)
 		for k := 0; k < pairs; k++ {
